@@ -15,7 +15,9 @@ ASSUMPTIONS = [
     '(documented per class in dsim/clientworld.py)',
     'pre-emption at yield points in every run; in about a quarter of the '
     'runs that involve threaded code also between source lines of engineio '
-    'functions (sys.settrace; realisable under OS threads); asyncio ready '
+    'functions (sys.settrace; realisable under OS threads), a third of those '
+    'as stall runs (the pre-empted thread stays away for up to 32 ticks of '
+    'virtual time; oracles widened by the total injected); asyncio ready '
     'queue kept FIFO',
     'TCP never reorders or duplicates inside one connection']
 LEVEL_NOTE = ('Trusted: sim primitives, the fake requests / websocket-client '
